@@ -53,10 +53,25 @@ int compint_to_size(zckCtx *zck, size_t *val, const char *compint,
     int count = 0;
     bool done = false;
     while(true) {
+        /* Make sure the next byte is still inside the buffer */
+        if(*length >= max_length) {
+            set_fatal_error(zck, "Read past end of header");
+            *length -= count;
+            *val = 0;
+            return false;
+        }
         size_t c = i[0];
         if(c >= 128) {
             c -= 128;
             done = true;
+        }
+        /* Make sure the final byte doesn't push the value past SIZE_MAX */
+        if(count == MAX_COMP_SIZE - 1 &&
+           c >> (sizeof(size_t) * 8 - 7 * (MAX_COMP_SIZE - 1)) != 0) {
+            set_fatal_error(zck, "Number too large");
+            *length -= count;
+            *val = 0;
+            return false;
         }
         /* There *must* be a more elegant way of doing c * 128**count */
         for(int f=0; f<count; f++)
@@ -68,11 +83,8 @@ int compint_to_size(zckCtx *zck, size_t *val, const char *compint,
             break;
         i++;
         /* Make sure we're not overflowing and fail if we do */
-        if(count >= MAX_COMP_SIZE || count >= max_length || *val < old_val) {
-            if(count > max_length)
-                set_fatal_error(zck, "Read past end of header");
-            else
-                set_fatal_error(zck, "Number too large");
+        if(count >= MAX_COMP_SIZE || *val < old_val) {
+            set_fatal_error(zck, "Number too large");
             *length -= count;
             *val = 0;
             return false;
